@@ -88,8 +88,13 @@ Definition apply_edits (l : list msg) (es : list edit) : list msg :=
 (* messages_abs(): the absolute view is re-sorted when the generator finishes (fixed code) *)
 Definition seq_edit_abs (s : seq) (es : list edit) : result seq :=
   do '(s1, a) <- get_abs s; Ok (mkseq (sort_abs (apply_edits a es)) (s_rel s1) false true).
+(* in the relative view only WAIT messages carry a time: time edits of other messages are skipped by the harness *)
+Definition apply_edits_rel (l : list msg) (es : list edit) : list msg :=
+  fold_left (fun acc e => let '(i, f, v) := e in
+                          set_nth i (fun m => match f with FTime => if is_wait m then apply_edit m f v else m
+                                                       | _ => apply_edit m f v end) acc) es l.
 Definition seq_edit_rel (s : seq) (es : list edit) : result seq :=
-  do '(s1, r) <- get_rel s; Ok (mkseq (s_abs s1) (apply_edits r es) true false).
+  do '(s1, r) <- get_rel s; Ok (mkseq (s_abs s1) (apply_edits_rel r es) true false).
 
 (* ---------------------------------------------------------------- store and operations *)
 Definition store : Set := list seq.
@@ -98,7 +103,9 @@ Inductive op : Set :=
 | ONew | ONewAbs (a : list msg) | ONewRel (r : list msg)
 | OCopy (i : nat)
 | OAddAbs (i : nat) (m : msg) | OAddRel (i : nat) (m : msg) (idx : option Z)
-| OConcat (i : nat) (js : list nat) | OMerge (i : nat) (js : list nat)
+| OConcat (i : nat) (js : list nat)           (* a.concatenate([b.copy() for b in js]) *)
+| OConcatLit (i : nat) (rs : list (list msg))  (* a.concatenate of fresh sequences built from literal messages *)
+| OMerge (i : nat) (js : list nat)
 | OCutoff (i : nat) (mx red : Z) | ONormalise (i : nat) | OPad (i : nat) (p : Z) | OSetChannel (i : nat) (c : Z)
 | OOverwriteAbs (i : nat) (ms : list msg) | OOverwriteRel (i : nat) (ms : list msg)
 | OSplit (i : nat) (caps : list Z)
@@ -150,11 +157,15 @@ Definition step (st : store) (o : op) : store * out :=
   | OAddAbs i m => on_obj st i (fun s => seq_add_abs s m)
   | OAddRel i m idx => on_obj st i (fun s => seq_add_rel s m idx)
   | OConcat i js =>
-      (* self.rel is read first, then every argument's rel *)
+      (* self.rel is read first, then the rel of a copy of every argument (the arguments themselves are untouched).
+         Plain a.concatenate([b]) shares b's Message objects with a by design (the test-suite asserts it), which a
+         functional store cannot express: known finding D9' *)
       lift st (do s <- getn st i; do '(s1, r) <- get_rel s;
-               do '(st1, rs) <- read_rels (setn st i s1) js;
-               do s2 <- getn st1 i;
-               Ok (setn st1 i (mkseq (s_abs s2) (r ++ concat rs) true false), ONone))
+               do rs <- mapM (fun j => do t <- getn st j; do '(_, rj) <- get_rel (seq_copy t); Ok rj) js;
+               Ok (setn st i (mkseq (s_abs s1) (r ++ concat rs) true false), ONone))
+  | OConcatLit i rs =>
+      lift st (do s <- getn st i; do '(s1, r) <- get_rel s;
+               Ok (setn st i (mkseq (s_abs s1) (r ++ concat rs) true false), ONone))
   | OMerge i js =>
       lift st (do s <- getn st i; do '(s1, a) <- get_abs s;
                do '(st1, as_) <- read_abss (setn st i s1) js;
@@ -219,9 +230,12 @@ Definition step (st : store) (o : op) : store * out :=
                do m <- getn st0' meta; do '(m1, ma) <- get_abs m;
                let st1 := setn st0' meta m1 in
                do '(st2, rels) <- read_rels st1 is_;
-               do bars <- split_bars rels ma qnl;
-               Ok (st2 ++ map (fun b => mkseq [] (b_rel b) true false) (concat bars),
-                   OBars (map (map (fun b => (b_num b, b_den b, b_key b))) bars)))
+               match split_bars rels ma qnl with
+               | Err e => Ok (st2, OErr e)
+               | Ok bars =>
+                   Ok (st2 ++ map (fun b => mkseq [] (b_rel b) true false) (concat bars),
+                       OBars (map (map (fun b => (b_num b, b_den b, b_key b))) bars))
+               end)
   end.
 
 Fixpoint run (st : store) (ops : list op) : store * list out :=
